@@ -6,6 +6,7 @@ CONSTANTS
   UseQueue = TRUE
   SkipQueue = FALSE
   Faults = FALSE
+  FaultKinds = {"crash", "reject", "third"}
   MaxC = 40
   RepStatuses = {"SUCCESSFUL", "FAILED"}
   Atomic = TRUE
